@@ -408,7 +408,7 @@ theorem tie_handleSeekAssigns : handleSeekAssigns =
     "f.ptr = ptr",
     "f.ptr.repacked = -1"] := rfl
 
-/-- filehandle.Readdir (count <= 0 path is modelled) -/
+/-- filehandle.Readdir (count <= 0: Model.C08_FS.step Op.hreaddir; count > 0: Model.C08_Ext.stepX) -/
 theorem tie_handleReaddirConds : handleReaddirConds =
     ["if !f.inode.IsDir()",
     "if count <= 0",
@@ -440,6 +440,52 @@ theorem tie_treenodeFileInfoText : treenodeFileInfoText =
 /-- nullnode.Child: lookup below a file is ErrNotADirectory (Model.C08_FS.walk) -/
 theorem tie_nullnodeChildText : nullnodeChildText =
     "{ return nil, ErrNotADirectory }" := rfl
+
+/-! ### third extension pass: paged Readdir, Size(), MemorySize(), memSegment.Truncate statements -/
+
+/-- filehandle.Readdir: snapshot on the first paged call, `count` capped at what is left, the page is the
+front of the snapshot and the snapshot loses it (Model.C08_Ext.pageStep / stepX) -/
+theorem tie_handleReaddirAssigns : handleReaddirAssigns =
+    ["f.unreaddirs, err = f.inode.Readdir()",
+    "count = len(f.unreaddirs)",
+    "ret := f.unreaddirs[:count]",
+    "f.unreaddirs = f.unreaddirs[count:]"] := rfl
+
+/-- filehandle.Readdir: results in order — not a directory, whole listing, snapshot error, EOF, a page -/
+theorem tie_handleReaddirReturns : handleReaddirReturns =
+    ["nil, ErrInvalidOperation",
+    "f.inode.Readdir()",
+    "nil, err",
+    "nil, io.EOF",
+    "ret, nil"] := rfl
+
+/-- treenode.Readdir: one FileInfo per entry of the map (Model.C08_Ext.entriesList) -/
+theorem tie_treenodeReaddirAssigns : treenodeReaddirAssigns =
+    ["fi = make([]os.FileInfo, 0, len(n.inodes))",
+    "fi = append(fi, inode.FileInfo())"] := rfl
+
+/-- collectionFileSystem.Size = TreeSize of the root: file sizes plus subdirectories, recursively
+(Model.C08_Ext.fsSize / treeSum) -/
+theorem tie_fsSizeText : fsSizeText = "{ return fs.fileSystem.root.(*dirnode).TreeSize() }" := rfl
+theorem tie_treeSizeAssigns : treeSizeAssigns =
+    ["bytes += i.Size()",
+    "bytes += i.TreeSize()"] := rfl
+
+/-- dirnode.MemorySize: lengths of memSegments, recursively (Model.C08_Ext.memSize / memOf) -/
+theorem tie_memorySizeAssigns : memorySizeAssigns =
+    ["size += node.MemorySize()",
+    "size += int64(seg.Len())"] := rfl
+
+/-- memSegment.Truncate, statement by statement (Model.C08_Ext.capTruncate / newCap): initial capacity
+1024, growth x4, fresh buffer resets `flushing`; in place: reslice and zero the reclaimed part -/
+theorem tie_memTruncateAssigns : memTruncateAssigns =
+    ["newsize := 1024",
+    "newsize = newsize << 2",
+    "newbuf := make([]byte, n, newsize)",
+    "me.buf, me.flushing = newbuf, nil",
+    "oldlen := len(me.buf)",
+    "me.buf = me.buf[:n]",
+    "me.buf[i] = 0"] := rfl
 
 /-- the production limit satisfies the hypothesis `1 ≤ max` of every C08 theorem -/
 theorem tie_maxBlockSize_pos : (1 : Int) ≤ maxBlockSize := by decide
